@@ -45,3 +45,16 @@ func vGenExtraRoot() string {
 	}
 	return filepath.Join(filepath.Dir(g), "genx")
 }
+
+// vExtraWanted reports whether an asset path below the extra root is one of the layouts a check asked for.
+func vExtraWanted(root, ap string, names ...string) bool {
+	if root != vGenExtraRoot() || root == "" {
+		return true
+	}
+	for _, n := range names {
+		if ap == n {
+			return true
+		}
+	}
+	return false
+}
